@@ -41,6 +41,10 @@ type harnessCfg struct {
 	// C01 obligations of other properties' harnesses under C01 without re-reporting their
 	// own assertions there.
 	Only []string `json:"only"`
+	// ReplayBudget: termination is part of the property: a path that exhausts the step
+	// budget is replayed natively under a wall-clock cap; a native crash or timeout is a
+	// violation.
+	ReplayBudget bool `json:"replay_budget"`
 }
 
 type propCfg struct {
@@ -99,6 +103,7 @@ func mkConfig(l *loaded, h harnessCfg, t tierCfg, thorough bool) *interp.Config 
 		cfg.MaxPaths = 100000
 	}
 	cfg.Thorough = thorough
+	cfg.ReportBudget = h.ReplayBudget
 	if thorough {
 		cfg.FallbackMs = 300000
 		cfg.AssertTimeMs = 60000
